@@ -6,7 +6,7 @@ import math
 import numpy as np
 
 from . import ref
-from .impl import Pen, Dfit, compiled_df, compiled_pen, classify_exc, gen_matrix, to_csc, csc_tokens
+from .impl import Pen, Dfit, compiled_df, compiled_pen, classify_exc, gen_matrix, to_csc, csc_tokens, seed_numba
 from .proto import fb, b as fbool, vec, mat, decode, close, same, canon
 
 ACD_DATAFITS = ("quadratic", "wquadratic", "logistic", "huber", "svc")
@@ -63,6 +63,11 @@ def run_acd(case):
         w_init = np.array(case.w_init, dtype=float)
         bb = w_init[p] if case.fit_intercept else 0.0
         Xw_init = case.X @ w_init[:p] + bb
+    elif getattr(case, "explicit_buffers", False):
+        # cold start through caller-owned buffers, so that the returned Xw can be compared with X w + b
+        w_init = np.zeros(p + case.fit_intercept)
+        Xw_init = np.zeros(n)
+    seed_numba()
     _verif.start()
     try:
         out = solver.solve(Xin, case.y.copy(), datafit, penalty, w_init, Xw_init)
@@ -532,5 +537,54 @@ def gen_case(rng, df_kinds=None, pen_kinds=None, degenerate=False, warm=None, bu
             wts = wts[::-1].copy()
             w_init[:p] = w_init[:p][::-1].copy()
         mode = "support-exceeds-ws"
+    elif rng.random() < 0.3 and dk != "svc" and pen.kind not in ("box", "pos"):
+        # working-set churn: more features than samples, small working sets, several outer iterations whose
+        # inner loops end exactly on an extrapolation epoch
+        p = rng.randrange(8, 15)
+        n = rng.randrange(4, 9)
+        base = np.array([[rng.gauss(0, 1) for _ in range(p)] for _ in range(n)])
+        for j in range(1, p):
+            base[:, j] = 0.6 * base[:, j - 1] + 0.8 * base[:, j]
+        X = np.asfortranarray(base)
+        if nonconvex:
+            X = normalise_cols(X, df, np.ones(n))
+        sw = np.ones(n) if dk != "wquadratic" else np.array([rng.choice([0.5, 1.0, 2.0]) for _ in range(n)])
+        y = df.gen_y(rng, n, structured=False)
+        wts = np.ones(p)
+        if pen.kind in Pen.WEIGHTED:
+            wts = np.array([rng.choice([0.5, 1.0, 1.0, 2.0]) for _ in range(p)])
+        pen.alpha = rng.choice([0.003, 0.01, 0.03])
+        knobs.update(p0=rng.choice([1, 2, 3]), max_epochs=rng.choice([7, 7, 14, 21]),
+                     max_iter=rng.choice([5, 10, 20]), tol=rng.choice([1e-6, 1e-10]))
+        w_init = None
+        mode = "ws-churn"
+    elif rng.random() < 0.3 and dk != "svc" and pen.kind not in ("box", "pos", "l05", "l23", "logsum"):
+        # medium-size sparse-regression problem solved to convergence with a tight / default epoch budget
+        n, p = 30, 60
+        base = np.array([[rng.gauss(0, 1) for _ in range(p)] for _ in range(n)])
+        base[:, 1:] += 0.7 * base[:, :-1]
+        X = np.asfortranarray(base)
+        sw = np.ones(n) if dk != "wquadratic" else np.array([rng.choice([0.5, 1.0, 2.0]) for _ in range(n)])
+        if nonconvex:
+            X = normalise_cols(X, df, sw)
+        wt = np.zeros(p)
+        for j in rng.sample(range(p), 8):
+            wt[j] = 2 * rng.gauss(0, 1)
+        lin = X @ wt
+        if dk == "logistic":
+            y = np.where(lin + 0.5 * np.array([rng.gauss(0, 1) for _ in range(n)]) > 0, 1.0, -1.0)
+        else:
+            y = lin + 0.5 * np.array([rng.gauss(0, 1) for _ in range(n)])
+        wts = np.ones(p)
+        if pen.kind in Pen.WEIGHTED:
+            wts = np.array([rng.choice([0.5, 1.0, 1.0, 2.0]) for _ in range(p)])
+        g0 = ref.grad_w(df, X, sw, y, np.zeros(p), 0.0)
+        pen.alpha = rng.choice([0.01, 0.03, 0.1]) * float(np.max(np.abs(g0)))
+        knobs.update(p0=rng.choice([2, 10]), max_epochs=rng.choice([7, 7, 14, 50000]), max_iter=50,
+                     tol=rng.choice([1e-4, 1e-6]))
+        w_init = None
+        mode = "medium"
     sparse = rng.random() < 0.35
-    return CDCase(df, pen, wts, X, y, sw, knobs, sparse=sparse, w_init=w_init, label=mode)
+    c = CDCase(df, pen, wts, X, y, sw, knobs, sparse=sparse, w_init=w_init, label=mode)
+    c.explicit_buffers = rng.random() < 0.6
+    return c
